@@ -303,7 +303,7 @@ var _ = reflect.DeepEqual
 
 func TestC13(t *testing.T) {
 	runWitnesses(t, "C13")
-	runProp(t, "history", 4000, 200000, func(t *rapid.T) {
+	runProp(t, "history", 20000, 200000, func(t *rapid.T) {
 		ev := xmodel.Gen(t, xmodel.GenCfg{MaxDepth: 3, MaxKids: 4, Names: []string{"a", "b", "c"}, Numeric: true})
 		doc := xmodel.Build(ev)
 		elems, attrs, _ := docNames(doc)
